@@ -18,6 +18,7 @@ import (
 	"fmt"
 	"io"
 	"math"
+	"math/bits"
 	"math/rand"
 	"os"
 	"path/filepath"
@@ -42,9 +43,14 @@ type c29Input struct {
 	// kind held: all items are marshalled first, the results are kept, and only then wrapped and decoded
 	Items []c29Item `json:"items,omitempty"`
 	// kind concurrent: G goroutines send N large compressible requests each (contents derived from Seed)
-	G    int   `json:"g,omitempty"`
-	N    int   `json:"n,omitempty"`
-	Seed int64 `json:"seed,omitempty"`
+	// kind sized: a request of about Target encoded bytes, generated from these parameters
+	API          string `json:"api,omitempty"`   // execute | query | request
+	Shape        string `json:"shape,omitempty"` // batch (many statements) | literal (one huge SQL text) | blob (one huge parameter)
+	Target       int    `json:"target,omitempty"`
+	Compressible bool   `json:"compressible,omitempty"`
+	G            int    `json:"g,omitempty"`
+	N            int    `json:"n,omitempty"`
+	Seed         int64  `json:"seed,omitempty"`
 }
 
 type c29Item struct {
@@ -205,8 +211,8 @@ func c29Gunzip(b []byte) ([]byte, error) {
 // ---------------------------------------------------------------- one case
 
 type c29Env struct {
-	s            *Store
-	total, lost  int // cases run / cases whose request never reached the log
+	s           *Store
+	total, lost int // cases run / cases whose request never reached the log
 }
 
 // send the message through the store and return the log entry it wrote
@@ -269,12 +275,24 @@ func c29Run(w *vWriter, e *c29Env, in c29Input) {
 		c29RunConcurrent(w, e, in)
 		return
 	}
-	orig := c29NewMsg(in.Kind)
-	if err := pb.Unmarshal(in.Msg, orig); err != nil {
-		panic(err)
+	kind, oracleOnly := in.Kind, false
+	var orig pb.Message
+	key := ""
+	if in.Kind == "sized" {
+		// size sweep: the request is generated from the parameters; too big for the model's byte lists, so the
+		// verdict is the round-trip oracle's alone (the theorems are over all sizes)
+		kind, oracleOnly = in.API, true
+		orig = c29GenSized(in)
+		key = fmt.Sprintf("sized/%s/%s/%d/%v/%d/%d/%d/%v", in.API, in.Shape, in.Target, in.Compressible, in.Seed, in.Batch, in.Size, in.Force)
+	} else {
+		orig = c29NewMsg(kind)
+		if err := pb.Unmarshal(in.Msg, orig); err != nil {
+			panic(err)
+		}
+		key = fmt.Sprintf("%s/%d/%d/%v/%x", kind, in.Batch, in.Size, in.Force, in.Msg)
 	}
 	sent := pb.Clone(orig)
-	c := VCase{Input: in, Key: fmt.Sprintf("%s/%d/%d/%v/%x", in.Kind, in.Batch, in.Size, in.Force, in.Msg)}
+	c := VCase{Input: in, Key: key}
 	fail := func(msg, sig string) {
 		if c.OracleFail == "" {
 			c.OracleFail, c.Sig = msg, sig
@@ -288,8 +306,8 @@ func c29Run(w *vWriter, e *c29Env, in c29Input) {
 	w.w.Flush()
 	off, _ := w.f.Seek(0, io.SeekCurrent)
 	w.mu.Unlock()
-	w.Emit(VCase{Input: in, Key: c.Key, OracleFail: "the process died while this " + in.Kind + " request was written to the log and applied (the entry could not be decoded as what was sent)",
-		Sig: "C29:entry-kills-receiver:" + in.Kind})
+	w.Emit(VCase{Input: in, Key: c.Key, OracleFail: "the process died while this " + kind + " request was written to the log and applied (the entry could not be decoded as what was sent)",
+		Sig: "C29:entry-kills-receiver:" + kind})
 	w.mu.Lock()
 	w.w.Flush()
 	w.mu.Unlock()
@@ -327,11 +345,11 @@ func c29Run(w *vWriter, e *c29Env, in c29Input) {
 		w.Emit(c)
 		return
 	}
-	if cmd.Type != c29Types[in.Kind] {
-		fail(fmt.Sprintf("%s request logged with command type %v", in.Kind, cmd.Type), "C29:wrong-command-type:"+in.Kind)
+	if cmd.Type != c29Types[kind] {
+		fail(fmt.Sprintf("%s request logged with command type %v", kind, cmd.Type), "C29:wrong-command-type:"+kind)
 	}
-	got := c29NewMsg(in.Kind)
-	switch in.Kind {
+	got := c29NewMsg(kind)
+	switch kind {
 	case "execute", "query", "request":
 		err = command.UnmarshalSubCommand(&cmd, got)
 	case "load":
@@ -342,9 +360,9 @@ func c29Run(w *vWriter, e *c29Env, in c29Input) {
 		err = command.UnmarshalNoop(cmd.SubCommand, got.(*proto.Noop))
 	}
 	if err != nil {
-		fail("sub-command does not decode: "+err.Error(), "C29:subcommand-undecodable:"+in.Kind)
+		fail("sub-command does not decode: "+err.Error(), "C29:subcommand-undecodable:"+kind)
 	} else if !pb.Equal(got, orig) {
-		fail(fmt.Sprintf("decoded %s request differs from the request sent (%s)", in.Kind, in.Note), "C29:decoded-request-differs:"+in.Kind)
+		fail(fmt.Sprintf("decoded %s request differs from the request sent (%s)", kind, in.Note), "C29:decoded-request-differs:"+kind)
 	}
 	if cmd.Compressed {
 		if !(len(cmd.SubCommand) < len(raw)) && !in.Force {
@@ -353,8 +371,8 @@ func c29Run(w *vWriter, e *c29Env, in c29Input) {
 		if u, err := c29Gunzip(cmd.SubCommand); err != nil || !bytes.Equal(u, raw) {
 			fail("compressed sub-command does not inflate to the request's encoding", "C29:compressed-bytes-wrong")
 		}
-		if in.Kind != "execute" && in.Kind != "query" && in.Kind != "request" {
-			fail(in.Kind+" entry flagged compressed", "C29:unexpected-compressed-flag")
+		if kind != "execute" && kind != "query" && kind != "request" {
+			fail(kind+" entry flagged compressed", "C29:unexpected-compressed-flag")
 		}
 	}
 
@@ -368,39 +386,41 @@ func c29Run(w *vWriter, e *c29Env, in c29Input) {
 			attempted = attempted || len(s.Sql) >= in.Size
 		}
 	}
-	gzTerm, subVar := "[]", "raw"
-	switch {
-	case cmd.Compressed || in.Kind == "load":
-		gzTerm, subVar = c29B(cmd.SubCommand), "gz" // what the real marshaler produced
-	case attempted:
-		// compression was tried and dropped: ask the real marshaler (forced) what its gzip made of these bytes
-		fm := *e.s.reqMarshaller
-		fm.ForceCompression = true
-		if g, z, err := fm.Marshal(orig.(command.Requester)); err == nil && z {
-			gzTerm = c29B(g)
-			if len(g) < len(raw) {
-				fail(fmt.Sprintf("compression dropped although it makes the entry smaller (%d < %d bytes)", len(g), len(raw)), "C29:smaller-but-not-compressed")
+	if !oracleOnly {
+		gzTerm, subVar := "[]", "raw"
+		switch {
+		case cmd.Compressed || kind == "load":
+			gzTerm, subVar = c29B(cmd.SubCommand), "gz" // what the real marshaler produced
+		case attempted:
+			// compression was tried and dropped: ask the real marshaler (forced) what its gzip made of these bytes
+			fm := *e.s.reqMarshaller
+			fm.ForceCompression = true
+			if g, z, err := fm.Marshal(orig.(command.Requester)); err == nil && z {
+				gzTerm = c29B(g)
+				if len(g) < len(raw) {
+					fail(fmt.Sprintf("compression dropped although it makes the entry smaller (%d < %d bytes)", len(g), len(raw)), "C29:smaller-but-not-compressed")
+				}
+			} else {
+				gzTerm = c29B(c29Gzip(raw))
 			}
-		} else {
-			gzTerm = c29B(c29Gzip(raw))
 		}
+		sub := raw
+		if subVar == "gz" {
+			sub = cmd.SubCommand
+		}
+		subTerm, entryTerm := subVar, c29B(entry)
+		if !bytes.Equal(sub, cmd.SubCommand) {
+			subTerm = c29B(cmd.SubCommand) // not what the model will predict: say so literally
+		} else if i := bytes.Index(entry, sub); i >= 0 && len(sub) > 0 {
+			entryTerm = "(" + c29B(entry[:i]) + " ++ " + subVar + " ++ " + c29B(entry[i+len(sub):]) + ")"
+		}
+		c.Coq = fmt.Sprintf("(let raw := %s in let gz := %s in Build_case (Build_mcfg %s %s %s) %s gz raw %s %s %s %s)",
+			c29B(raw), gzTerm, coqZ(int64(in.Batch)), coqZ(int64(in.Size)), coqBool(in.Force), c29Body(kind, orig), entryTerm,
+			coqN(uint64(cmd.Type)), coqBool(cmd.Compressed), subTerm)
 	}
-	sub := raw
-	if subVar == "gz" {
-		sub = cmd.SubCommand
-	}
-	subTerm, entryTerm := subVar, c29B(entry)
-	if !bytes.Equal(sub, cmd.SubCommand) {
-		subTerm = c29B(cmd.SubCommand) // not what the model will predict: say so literally
-	} else if i := bytes.Index(entry, sub); i >= 0 && len(sub) > 0 {
-		entryTerm = "(" + c29B(entry[:i]) + " ++ " + subVar + " ++ " + c29B(entry[i+len(sub):]) + ")"
-	}
-	c.Coq = fmt.Sprintf("(let raw := %s in let gz := %s in Build_case (Build_mcfg %s %s %s) %s gz raw %s %s %s %s)",
-		c29B(raw), gzTerm, coqZ(int64(in.Batch)), coqZ(int64(in.Size)), coqBool(in.Force), c29Body(in.Kind, orig), entryTerm,
-		coqN(uint64(cmd.Type)), coqBool(cmd.Compressed), subTerm)
 
 	// ---- evidence bookkeeping
-	c.Tags = []string{"type=" + in.Kind, fmt.Sprintf("compressed=%v", cmd.Compressed)}
+	c.Tags = []string{"type=" + kind, fmt.Sprintf("compressed=%v", cmd.Compressed)}
 	near, kinds := false, map[string]bool{}
 	if r, ok := orig.(command.Requester); ok {
 		ss := r.GetRequest().GetStatements()
@@ -430,6 +450,10 @@ func c29Run(w *vWriter, e *c29Env, in c29Input) {
 	if in.Force {
 		c.Tags = append(c.Tags, "forced")
 	}
+	if oracleOnly {
+		c.Tags = append(c.Tags, "size-sweep", "shape="+in.Shape, fmt.Sprintf("encoded>=2^%d", bits.Len(uint(len(raw)))-1))
+		near = true // the encoded size is next to a power of two by construction
+	}
 	if strings.HasPrefix(in.Note, "gzip length - raw length") {
 		c.Tags = append(c.Tags, "gzip-length-boundary")
 	}
@@ -441,7 +465,6 @@ func c29Run(w *vWriter, e *c29Env, in c29Input) {
 	w.w.Flush()
 	w.mu.Unlock()
 }
-
 
 // ---------------------------------------------------------------- results of Marshal must stay valid
 
@@ -839,6 +862,62 @@ func c29Gen(rng *rand.Rand, kind string, batch, size int) (pb.Message, string) {
 	panic(kind)
 }
 
+// a request whose protobuf encoding has about in.Target bytes
+func c29GenSized(in c29Input) pb.Message {
+	rng := rand.New(rand.NewSource(in.Seed))
+	text := func(n int) string {
+		if in.Compressible {
+			return c29Text(rng, n, true)
+		}
+		return c29Text(rng, n, false)
+	}
+	blob := func(n int) []byte {
+		b := make([]byte, n)
+		if in.Compressible {
+			for i := range b {
+				b[i] = byte(i % 7 * 31)
+			}
+		} else {
+			rng.Read(b)
+		}
+		return b
+	}
+	r := &proto.Request{Transaction: true}
+	switch in.Shape {
+	case "batch":
+		if !in.Compressible {
+			// fewer statements than the batch threshold, short SQL, random blobs: stored uncompressed
+			for i := 0; i < 100; i++ {
+				r.Statements = append(r.Statements, &proto.Statement{Sql: fmt.Sprintf("INSERT INTO sweep(id, v) VALUES(%d, ?)", i),
+					Parameters: []*proto.Parameter{{Value: &proto.Parameter_Y{Y: blob(in.Target / 100)}}}})
+			}
+			break
+		}
+		for total := 0; total < in.Target; {
+			st := &proto.Statement{Sql: fmt.Sprintf("INSERT INTO sweep(id, v) VALUES(%d, '%s')", len(r.Statements), text(40+rng.Intn(80)))}
+			r.Statements = append(r.Statements, st)
+			sz := pb.Size(st)
+			total += sz + 2
+			if sz >= 128 {
+				total++
+			}
+		}
+	case "literal":
+		r.Statements = []*proto.Statement{{Sql: "SELECT '" + text(in.Target) + "'"}}
+	case "blob":
+		// (compressible: the SQL text is long enough for compression to be attempted; otherwise stored uncompressed)
+		sqlText := "INSERT INTO sweep(v) VALUES(?)"
+		if in.Compressible {
+			sqlText += " /* " + c29Text(rng, 5000, true) + " */"
+		}
+		r.Statements = []*proto.Statement{{Sql: sqlText,
+			Parameters: []*proto.Parameter{{Value: &proto.Parameter_Y{Y: blob(in.Target)}, Name: "v"}}}}
+	default:
+		panic("bad shape " + in.Shape)
+	}
+	return c29Wrap(in.API, r)
+}
+
 // a small valid SQLite database file
 func c29SQLiteFile(t *testing.T, rows int) []byte {
 	p := filepath.Join(t.TempDir(), fmt.Sprintf("c29-%d.db", rows))
@@ -913,7 +992,9 @@ func TestVerif_C29(t *testing.T) {
 				r.Statements = append(r.Statements, &proto.Statement{Sql: fmt.Sprintf("INSERT INTO foo(id) VALUES(%d)", i/200)})
 			}
 			kind, r, n := kind, r, n
-			bigs = append(bigs, func() { emit(kind, 512, 4096, false, c29Wrap(kind, r), fmt.Sprintf("statements=%d default thresholds", n)) })
+			bigs = append(bigs, func() {
+				emit(kind, 512, 4096, false, c29Wrap(kind, r), fmt.Sprintf("statements=%d default thresholds", n))
+			})
 		}
 		for _, l := range []int{4095, 4096, 4097} {
 			if !big {
@@ -957,6 +1038,38 @@ func TestVerif_C29(t *testing.T) {
 	// concurrent writers on the live store
 	for i, nc := 0, vN(1, 6); i < nc; i++ {
 		c29Run(w, e, c29Input{Kind: "concurrent", Batch: 512, Size: 64, G: 8, N: vN(40, 150), Seed: rng.Int63()})
+	}
+
+	// size sweep: compressed and uncompressed requests whose encoding lies just below / above each power of two from
+	// 64 KiB to 16 MiB; many-statement batches, one huge SQL literal, one huge blob parameter; oracle only
+	{
+		shapes := []string{"batch", "literal", "blob"}
+		apis := []string{"execute", "query", "request"}
+		i := 0
+		for k := 16; k <= 24; k++ {
+			for _, above := range []bool{true, false} {
+				for si, shape := range shapes {
+					for _, compressible := range []bool{true, false} {
+						i++
+						if vTier() != "thorough" {
+							// quick: above every power of two one compressed case (shape and API rotating), and for every third
+							// an uncompressed one (random blobs: compression is tried and dropped)
+							pick := above && compressible && si == (k+int(vSeed()))%3
+							pick = pick || (above && !compressible && k%3 == 0 && shape == []string{"blob", "batch"}[(k/3+int(vSeed()))%2])
+							if !pick {
+								continue
+							}
+						}
+						d := 2048 + rng.Intn(4096)
+						if !above {
+							d = -d - 6000
+						}
+						c29Run(w, e, c29Input{Kind: "sized", API: apis[i%3], Shape: shape, Target: 1<<k + d, Compressible: compressible,
+							Seed: rng.Int63(), Batch: 512, Size: 4096})
+					}
+				}
+			}
+		}
 	}
 
 	// the exact boundary of "smaller": requests whose gzip output is one byte shorter than, as long as, and one byte
